@@ -39,12 +39,20 @@ pub const MALFORMED: &[&str] = &[
     "halt", "trap x25", "HALT", "rti", "RTI", "br D0", "brnzp D0", "brz D0", "brn #1", "trap x0", "trap x1F", "trap x28", "trap xFF", "trap x26 r0",
 ];
 
+/// One token too many after a complete instruction: every kind of token the assembler knows.
+pub const SURPLUS: &[&str] = &[
+    ".end", ".end x1", ".END r9 (", ".fill x1", ".orig x3000", ".break", ".stringz \"a\"", ".blkw #1", ".bogus", "r0", "R7", "#1", "x1", "#-1", "D0", "MAIN", "nolabel", "\"s\"",
+    "halt", "ret", "add r0 r0 r0", "trap x25", "@", "é", "12", "x", "#", ".", "\"unterminated", "add",
+];
+/// One foreign token before the instruction.
+pub const PREFIXES: &[&str] = &[".orig x3000", ".end", "newlbl", "D0", "r0", "#1", "x1", "\"s\"", ".fill x1", "halt", "@", "é", "12"];
+
 pub fn judge_case(c: &Case) -> Obs {
     let mut obs = Obs::default();
     let mut spec = c.spec.clone();
-    spec.main.retain(|op| !matches!(op, proggen::PgOp::In(_)));
+    spec.main.retain(|op| !matches!(op, proggen::PgOp::In(_) | proggen::PgOp::InShow(_)));
     for s in &mut spec.subs {
-        s.retain(|op| !matches!(op, proggen::PgOp::In(_)));
+        s.retain(|op| !matches!(op, proggen::PgOp::In(_) | proggen::PgOp::InShow(_)));
     }
     let p = match prepare(&spec, Layout::CANON) {
         Ok(p) => p,
@@ -53,6 +61,9 @@ pub fn judge_case(c: &Case) -> Obs {
             return obs;
         }
     };
+    if let Some(l) = proggen::fit_label(&spec) {
+        obs.label(l);
+    }
     let mut cmds: Vec<Cmd> = Vec::new();
     if c.pre_steps > 0 {
         cmds.push(Cmd::StepInto(Some(c.pre_steps as u16)));
@@ -74,7 +85,19 @@ pub fn judge_case(c: &Case) -> Obs {
     let eval_index = cmds.len();
     let stmt = make_eval_stmt(&p, &c.eval);
     let eval_cmd = match c.malformed {
-        Some(i) => Cmd::EvalText(MALFORMED[(i as usize * MALFORMED.len()) >> 16].to_string()),
+        Some(i) => {
+            // a text from the fixed list, or the well-formed instruction with one surplus token
+            // after it / one foreign token before it ("not exactly one well-formed instruction")
+            let k = (i as usize * (MALFORMED.len() + SURPLUS.len() + PREFIXES.len())) >> 16;
+            let good = crate::refdbg::stmt_text(&stmt);
+            Cmd::EvalText(if k < MALFORMED.len() {
+                MALFORMED[k].to_string()
+            } else if k < MALFORMED.len() + SURPLUS.len() {
+                format!("{good} {}", SURPLUS[k - MALFORMED.len()])
+            } else {
+                format!("{} {good}", PREFIXES[k - MALFORMED.len() - SURPLUS.len()])
+            })
+        }
         None => Cmd::Eval(stmt.clone()),
     };
     cmds.push(eval_cmd.clone());
@@ -171,11 +194,11 @@ fn stmt_op(stmt: &crate::refasm::Stmt, c: &Case) -> String {
 fn cases() -> impl Strategy<Value = Case> {
     (
         proggen::prog_spec(10),
-        prop_oneof![1 => Just(0u8), 3 => 1u8..25],
-        prop::option::weighted(0.5, raw_cmd()),
+        crate::pick![1 => Just(0u8), 3 => 1u8..25],
+        crate::pick::opt(0.5, raw_cmd()),
         prop::collection::vec(raw_cmd(), 0..4),
         raw_cmd(),
-        prop::option::weighted(0.3, any::<u16>()),
+        crate::pick::opt(0.3, any::<u16>()),
         any::<bool>(),
     )
         .prop_map(|(mut spec, pre_steps, goto, setup, eval, malformed, stack)| {
@@ -190,7 +213,7 @@ impl Prop for C15 {
     }
     fn rule(&self) -> &'static str {
         "Sessions `step into k; goto <code address>; move ... (set up registers / memory); eval <X>; move r3 x1234; exit` on ProgGen programs, under both feature settings: X is every register / immediate / base+offset instruction form, label operands (LD, LDI, LEA, ST, STI, JSR, CALL) defined before and after the current PC, stack instructions, output traps, \
-         the off-limits forms (BR*, RTI, HALT, unknown trap vectors), or one of ~100 malformed texts (missing, surplus and wrong-kind operands, two instructions, directives, garbage, multi-byte characters, unknown labels, out-of-range literals). \
+         the off-limits forms (BR*, RTI, HALT, unknown trap vectors), or a malformed text: one of ~100 fixed ones (missing, surplus and wrong-kind operands, two instructions, directives, garbage, multi-byte characters, unknown labels, out-of-range literals), or the generated well-formed instruction followed by one surplus token of every kind (directives incl. .end, registers, literals, labels, strings, mnemonics, junk) or preceded by a foreign token. \
          Oracle: allowed => the state equals RefVM executing, at the current PC, the encoding whose PC-relative field makes the effective address the label's address (registers/PC/CC after every command, full memory at the end, output); PC changes only for jumps; off-limits or malformed => nothing changes; in every case the session goes on (the following `move r3 x1234` takes effect and `exit` ends it). The link value of JSR/JSRR and the word pushed by CALL are masked; literal PC offsets are not generated. \
          Non-trivial: the text is refused / malformed, or PC != origin and the instruction has a label operand or writes memory. Distinct = hash(source, script)."
     }
@@ -200,6 +223,9 @@ impl Prop for C15 {
     fn run_worker(&self, ctx: &Ctx, rep: &mut Report) {
         let n = ctx.share(ctx.tier.pick(30_000, 300_000));
         drive(ctx, rep, "evals", cases(), n, &mut |c: &Case| judge_case(c));
+    }
+    fn fuzz_strategy(&self) -> Option<BoxedStrategy<Value>> {
+        Some(crate::fuzzmode::jv(cases()))
     }
     fn replay(&self, _ctx: &Ctx, case: &Value) -> Obs {
         match serde_json::from_value::<Case>(case.clone()) {
